@@ -1,0 +1,20 @@
+//go:build verif
+
+// Contracts of this package for the deductive verifier in /verif (vcgo).
+// Comment-only; compiled only with -tags verif.
+
+package auth
+
+// ---------------------------------------------------------------------------
+// Token scope (C10)
+
+//@ extern slices.Contains
+//@   serves C10
+//@   ensures[member] result == (exists i int :: 0 <= i && i < len(arg0) && arg0[i] == arg1)
+
+//@ pure permitted(t *Token, id string) bool = len(t.Endpoints) == 0 || (exists i int :: 0 <= i && i < len(t.Endpoints) && t.Endpoints[i] == id)
+
+//@ contract (*Token).EndpointPermitted
+//@   serves C10
+//@   opt frame true
+//@   ensures[exact] result == permitted(t, endpointID)
